@@ -101,6 +101,9 @@ pub mod verif {
     /// See [`super::utf8_range_to_position`]; positions are returned as `(line, character)`.
     pub fn utf8_range_to_position(text: &str, range: Range<usize>) -> ((u32, u32), (u32, u32)) {
         let r = super::utf8_range_to_position(text, range);
-        ((r.start.line, r.start.character), (r.end.line, r.end.character))
+        (
+            (r.start.line, r.start.character),
+            (r.end.line, r.end.character),
+        )
     }
 }
